@@ -5,7 +5,7 @@ import vf, wire
 
 A_J, B_J = "alice@example.org/res1", "bob@example.org/res1"
 NOERROR = 0
-FAULTS = ["drop", "duplicate", "swap", "flip", "earlyclose", "wrongsid", "wrongsender", "seq"]
+FAULTS = ["drop", "duplicate", "swap", "flip", "earlyclose", "wrongsid", "wrongsender", "seq", "inject"]
 
 
 def content(r, kind, n):
@@ -157,6 +157,10 @@ def main(tier, replay=None):
                     for sq in (0, at + 2, 65535):
                         if sq != at:
                             jobs.append((size, b, "random", dict(f, seq=sq), True))
+                elif kind == "inject":
+                    for frm in ("alice@example.org/other-resource", "alice@example.org", "mallory@example.org/evil"):
+                        for wh in (True, False):
+                            jobs.append((size, b, "random", dict(f, injectFrom=frm), wh))
                 else:
                     jobs.append((size, b, "random", f, True))
                     if kind in ("drop", "earlyclose", "duplicate"):
@@ -192,7 +196,7 @@ def main(tier, replay=None):
             size = r.randrange(1, b * 12)
             nb = (size + b - 1) // b
             kind = r.choice(FAULTS)
-            f = {"kind": kind, "at": r.randrange(nb), "bit": r.randrange(64), "seq": r.randrange(65536)}
+            f = {"kind": kind, "at": r.randrange(nb), "bit": r.randrange(64), "seq": r.randrange(65536), "injectFrom": r.choice(["alice@example.org/other-resource", "alice@example.org", "mallory@example.org/evil"])}
             jobs.append((size, b, "random", f, r.random() < 0.8))
     W = vf.NPROC
     # long transfers first so that they overlap with the short ones
@@ -208,7 +212,7 @@ def main(tier, replay=None):
         stats.update(st)
     cov = {"evaluations": stats["transfers"], "distinct_nontrivial": stats["fault_free_ok"] + stats["fault_detected"] + stats["faulted_but_bytes_intact"],
            "rule": "in-band transfers between two real clients with QXmppTransferManager, relayed by the fake server: sizes {0,1,b-1,b,b+1,2b,3b+5} x block sizes {1,7,4096} x contents {zeros, random, all byte values} with and without "
-                   "announced hash, transfers of more than 65536 blocks (block size 1), and every single fault (drop, duplicate, swap with next, bit flip, early close, wrong session id, wrong sender, wrong sequence number) at every block "
+                   "announced hash, transfers of more than 65536 blocks (block size 1), and every single fault (drop, duplicate, swap with next, bit flip, early close, wrong session id, wrong sender, wrong sequence number, an additional block with the right session id and sequence number but other bytes from another resource of the sender's account / its bare address / a stranger) at every block "
                    "position of short transfers; oracle: receiver success => identical bytes; fault-free => both sides succeed with identical bytes",
            "socks5": "SOCKS5 bytestream transfers (the sender's own SOCKS5 server as stream host, reached by the receiver through a tampering TCP hop the relay substitutes in the stream-host offer): fault-free size/content matrix "
                      "with and without hash; single faults in the payload behind the SOCKS5 negotiation (drop, bit flip, duplicate, early close, appended bytes) at offsets {0, middle, last}; a flipped bit without an announced hash is undetectable by design and not judged",
